@@ -190,3 +190,31 @@ Print Assumptions C07_case_insensitive.
 Print Assumptions C07_unsupported_extension.
 Print Assumptions C07_ts_read_only.
 Print Assumptions C07_nothing_to_write_srt.
+
+(* Teletext as the SOURCE of conversions (a .ts file can be read, not written).  The teletext "document" is the list of
+   delivered (time, PES payload) pairs of the reader model (Model/Ttx.v; the demuxer is a library contract, see
+   notes/C06.md).  ttx_enc writes a plain cue list as a subtitle inserter would (Model/PlainTtx.v: page 888 with the subtitle
+   flag, national option 0, one instance per cue at its start time, an erase page at its end unless the next cue begins at
+   that very time, one row per line: start box twice, text, end box, padding; one PES packet per instance); ttx_dec is the
+   reader with page auto-detection followed by the plain view of its cues.  ttx_plain_ok (decidable): the first cue starts
+   at 0 (the reader's times are relative to the first presentation time of the stream), 0 <= start <= end on the millisecond
+   grid, each cue ends before or when the next begins (one page on screen at a time), 1..24 lines of 1..37 bytes that are
+   G0 cells decoding to themselves under national option 0 (40 cells with the box codes), no space at either end of a line
+   (the reader trims).  Unit 1 ms: inside ttx_plain_ok nothing is truncated.  From C06's stream theorem
+   (C06_stream_page_auto).  With C07_pair / C07_pair_ops / C07_cli this gives ts -> {srt, vtt, ssa, stl, ttml}. *)
+From Astisub Require Import Model.TtxSpec Model.PlainTtx Proofs.PlainTtxProofs.
+Theorem C07_ttx_plain_faithful : plain_faithful 1000000 ttx_plain_ok ttx_enc ttx_dec.
+Proof. exact ttx_plain_faithful. Qed.
+Print Assumptions C07_ttx_plain_faithful.
+Theorem C07_ttx_plain_source : forall (SB : Type) uB okB (encB : plain -> res SB) decB, plain_faithful uB okB encB decB ->
+  forall p, ttx_plain_ok p -> okB (ptrunc 1000000 p) ->
+  exists src dst, ttx_enc p = Ok src /\ convert_plain ttx_dec encB src = Ok dst /\ decB dst = Ok (ptrunc uB (ptrunc 1000000 p)).
+Proof. exact @ttx_plain_source. Qed.
+Print Assumptions C07_ttx_plain_source.
+Theorem C07_ttx_to_srt : forall p, ttx_plain_ok p -> srt_plain_ok (ptrunc 1000000 p) ->
+  exists src dst, ttx_enc p = Ok src /\ convert_plain ttx_dec srt_enc src = Ok dst /\
+                  srt_dec dst = Ok (ptrunc 1000000 (ptrunc 1000000 p)).
+Proof. exact plain_ttx_to_srt. Qed.
+Print Assumptions C07_ttx_to_srt.
+Example C07_ttx_plain_example : ttx_plain_ok ex_plain_ttx /\ srt_plain_ok (ptrunc 1000000 ex_plain_ttx) /\ length ex_plain_ttx = 3%nat.
+Proof. split; [exact ex_plain_ttx_ok | split; [exact ex_plain_ttx_srt_ok | reflexivity]]. Qed.
